@@ -144,9 +144,10 @@ def key_fn(case: dict[str, Any], label: str, item: dict[str, Any], conc: dict[st
     if case["kind"] == "lists":
         # the item-pattern (which block kinds the items hold) is the normal form of a list skeleton
         pat = str(case["special"]).split("/")[-1]
-        if "/footnote/" in case["key"]:
-            # a list starting on the label line of a footnote definition (see skeletons/docs.finding_class)
-            return f"footnote-first-line-list/{label}"
+        if "/footnote1/" in case["key"] or "/footnote/" in case["key"]:
+            # a multi-item list inside a footnote definition (see skeletons/docs.finding_class): Marko reads the items'
+            # indentation unreliably; whatever obligation that drift breaks first
+            return "footnote-first-line-list/list-spacing"
         return f"list[{pat}]/{label}"
     return f"{DOCS.special_key(case)}/{label}"
 
